@@ -10,6 +10,13 @@ The oracle is independent of the model and of the order in which the code lists 
 atom of the result as (original atom, lattice offset) from charge + position, and then checks counts, the multiset of
 atoms per lattice offset, the cell rows, one copy of every term per image inside that image with its type and extra
 fields, unchanged tables, identity for (1,1,1) and that the input object is not modified.
+CLI stream (the property's anchors include mofun/cli/mofun_cli.py): a generated structure (orthorhombic or
+LAMMPS-triclinic) is written to a temporary .lmpdat, the real entry point runs in-process
+(`CliRunner().invoke(mofun_cli, [inp, out, "--replicate", a, b, c] (+ ["--mic", m]))`), the output is loaded with
+`Atoms.load`, and the same oracle is applied relative to the INPUT as re-read from the same file.  With `--mic` on an
+orthorhombic cell the expected factors are a_i * ceil(2*mic / (a_i * len_i)) (cases where that ceil is 1 and cases
+where it is 2); on a triclinic cell `--mic` cannot replicate, `--replicate` must still be honoured.
+
 For the tie both dumps are brought to an order-independent canonical form (atoms sorted by charge and position, term
 indices re-mapped, terms sorted).
 """
@@ -25,7 +32,8 @@ RULE = ("random consistent Atoms, 1..6 atoms (quick) / 1..8 (thorough), unique c
         "columns; cells orthorhombic / LAMMPS-triclinic with positive or negative tilts / arbitrarily oriented "
         "(sheared, rows permuted); factors in {1..3}^3 (thorough {1..4}^3, product <= 27), two thirds of the cases "
         "with unequal factors. Non-trivial = distinct input with a non-orthorhombic cell, unequal factors, product "
-        ">= 2 and at least one term.")
+        ">= 2 and at least one term. CLI stream: 10 (quick) / 40 (thorough) runs of the real command line with "
+        "--replicate alone and together with --mic, orthorhombic and LAMMPS-triclinic cells.")
 
 
 def F(v):
@@ -40,7 +48,7 @@ def vclose(u, v, tol=1e-9):
     return all(core.close(x, y, tol) for x, y in zip(u, v))
 
 
-def oracle_replicate(a, dims, r, a_after=None, a_before=None):
+def oracle_replicate(a, dims, r, a_after=None, a_before=None, tol=1e-9):
     """a = dump before, r = {'ok': dump of a.replicate(dims)} / {'err':..}, a_after = dump of the input object after
     the call. Returns None or a description of the violated clause."""
     da, db, dc = dims
@@ -57,7 +65,7 @@ def oracle_replicate(a, dims, r, a_after=None, a_before=None):
         return "replicated structure has no cell"
     for row, f in zip(range(3), dims):
         want = [f * F(v) for v in cell[row]]
-        if not vclose([F(v) for v in r["cell"][row]], want):
+        if not vclose([F(v) for v in r["cell"][row]], want, tol):
             return "cell row %d is %s, expected %d x %s" % (row, r["cell"][row], f, cell[row])
     # --- every atom of the result is (original atom, lattice offset); each pair exactly once
     by_q = {}
@@ -77,7 +85,7 @@ def oracle_replicate(a, dims, r, a_after=None, a_before=None):
         if at["ty"] != src["ty"] or at["g"] != src["g"] or at["x"] != src["x"]:
             return "atom %d (image of atom %d): type / group / extra fields differ from the original" % (idx, x)
         d = [F(p) - F(s) for p, s in zip(at["pos"], src["pos"])]
-        ms = [m for m in box if vclose(d, offs[m])]
+        ms = [m for m in box if vclose(d, offs[m], tol)]
         if len(ms) != 1:
             return "atom %d (image of atom %d) is displaced by %s, not by i*A+j*B+k*C with (i,j,k) inside the box" % (
                 idx, x, [str(v) for v in d])
@@ -108,7 +116,7 @@ def oracle_replicate(a, dims, r, a_after=None, a_before=None):
         return "extra-column labels changed by replicate"
     # --- identity
     if (da, db, dc) == (1, 1, 1):
-        d = core.same(r, a)
+        d = core.same(r, a, tol=tol)
         if d:
             return "1x1x1 replication is not the identity: " + d
     # --- the input object is untouched
@@ -179,6 +187,96 @@ def cases(ctx):
     return out
 
 
+# ------------------------------------------------------------------------------------------------ CLI stream
+
+def expected_cli_dims(a, dims, mic):
+    """factors the command line must realise: --replicate first, then (orthorhombic cells only) the minimum-image
+    replication of the already replicated cell"""
+    if mic is None:
+        return list(dims)
+    cell = [[F(v) for v in row] for row in a["cell"]]
+    ortho = all(cell[i][j] == 0 for i in range(3) for j in range(3) if i != j)
+    if not ortho:
+        return list(dims)
+    out = []
+    for i in range(3):
+        ratio = 2 * F(mic) / (dims[i] * cell[i][i])
+        out.append(dims[i] * max(1, -((-ratio.numerator) // ratio.denominator)))
+    return out
+
+
+def _cli_replicate(aj, dims, mic):
+    """write aj to a temporary .lmpdat, run the real CLI in-process, return (dump of the input as re-read from the file,
+    result {'ok': dump of the loaded output} / {'err': ..})"""
+    import os
+    import shutil
+    import tempfile
+    tmp = tempfile.mkdtemp(prefix="c12cli_")
+    try:
+        inp, out = os.path.join(tmp, "in.lmpdat"), os.path.join(tmp, "out.lmpdat")
+        reread = {}
+
+        def f():
+            from click.testing import CliRunner
+            from mofun import Atoms
+            from mofun.cli.mofun_cli import mofun_cli
+            core.atoms_from_json(aj).save(inp)
+            reread["a"] = core.canon_atoms(Atoms.load(inp))
+            args = [inp, out, "--replicate"] + [str(int(d)) for d in dims]
+            if mic is not None:
+                args += ["--mic", str(float(F(mic)))]
+            res = CliRunner().invoke(mofun_cli, args)
+            if res.exit_code != 0:
+                raise RuntimeError("mofun CLI exit code %s: %r" % (res.exit_code, res.exception))
+            return core.canon_atoms(Atoms.load(out))
+        r = core.result_of(f)
+        return reread.get("a"), r
+    finally:
+        shutil.rmtree(tmp, ignore_errors=True)
+
+
+def cli_cases(ctx):
+    rng = ctx.rng
+    out = []
+    n = ctx.n(10, 40)
+    for s in range(n):
+        ck = ["ortho", "tri+", "ortho", "tri-"][s % 4]
+        a = gen.rand_atoms(rng, n=rng.randint(2, 5), cell=ck, kinds=KINDS if s % 2 == 0 else None, extras=False,
+                           coeffs=True, pair=True, term_density=rng.randint(1, 2))
+        dims = rand_dims(rng, 3, 8)
+        mode = ["plain", "mic1", "mic2", "mic1"][(s // 2) % 4] if ck == "ortho" else ["plain", "mic1"][(s // 4) % 2]
+        if mode != "plain" and dims == [1, 1, 1]:
+            dims = rng.choice([[2, 1, 1], [1, 2, 1], [1, 1, 2], [2, 1, 3]])
+        mic = None
+        if mode == "mic1":      # already satisfied by the replicated cell: nothing more to do
+            mic = "1"
+        elif mode == "mic2":    # forces a factor 2 along the shortest replicated axis (1 < 2*mic/len <= 3/2 < 2)
+            lens = [dims[i] * F(a["cell"][i][i]) for i in range(3)]
+            mic = core.q(Fraction(int(min(lens) * 6), 8) - Fraction(1, 8))
+        out.append((a, dims, mic, ck, mode))
+    return out
+
+
+def check_cli(ctx, a, dims, mic, ck, mode):
+    inp = {"op": "cli_replicate", "a": a, "dims": dims, "mic": mic}
+    a_file, r = _cli_replicate(a, dims, mic)
+    want = expected_cli_dims(a_file, dims, mic) if a_file is not None else list(dims)
+    if a_file is None:
+        bad = "the generated structure could not be written / re-read as .lmpdat: %s" % r.get("err")
+    else:
+        bad = oracle_replicate(a_file, want, r, tol=2e-6)
+        if bad:
+            bad = "CLI --replicate %s%s (expected factors %s): %s" % (
+                dims, "" if mic is None else " --mic %s" % mic, want, bad)
+    ctx.case(inp, nontrivial=(mic is not None and dims != [1, 1, 1]))
+    ctx.count("cli:%s:%s" % (ck, mode))
+    if want != list(dims):
+        ctx.count("cli:mic-forces-factor")
+    if bad:
+        ctx.fail(bad, inp, observed=r)
+    return a_file, want, r
+
+
 def _norm(aj):
     with core.quiet():
         return core.canon_atoms(core.atoms_from_json(aj))
@@ -205,6 +303,13 @@ def run(ctx, oracle_only=False):
             ctx.fail(bad, inp, observed=r)
         ops.append(inp)
         impls.append(r)
+    # the command line: --replicate alone and together with --mic
+    for a, dims, mic, ck, mode in cli_cases(ctx):
+        a_file, want, r = check_cli(ctx, _norm(a), dims, mic, ck, mode)
+        if a_file is not None and "ok" in r:
+            # tie: the model replicates the re-read input by the expected factors (compared order-independently)
+            ops.append({"op": "replicate", "a": a_file, "dims": want})
+            impls.append(r)
     if oracle_only:
         return
     # no cell: both sides refuse
@@ -235,5 +340,10 @@ def search(ctx):
 
 def replay(ctx, rec):
     inp = rec["input"]
+    if inp.get("op") == "cli_replicate":
+        a_file, r = _cli_replicate(inp["a"], inp["dims"], inp.get("mic"))
+        if a_file is None:
+            return False
+        return oracle_replicate(a_file, expected_cli_dims(a_file, inp["dims"], inp.get("mic")), r, tol=2e-6) is None
     r, side = _replicate(inp["a"], inp["dims"])
     return oracle_replicate(inp["a"], inp["dims"], r, side.get("after"), side.get("before")) is None
